@@ -33,7 +33,7 @@ TRUSTED = list(c3.TRUSTED) + [
 ]
 ASSUMPTIONS = list(c3.ASSUMPTIONS) + ["maintenance operations (dataset deletion, garbage collection, compaction) are outside C06 (C07, C12)"]
 
-GET_SCOPES = [None, ["a"], ["b"], ["a", "b"], ["zz"]]
+GET_SCOPES = [None, ["a"], ["b"], ["a", "b"], ["zz"], ["px"]]
 CORE = "http://data.mimiro.io/core/"
 
 
@@ -92,7 +92,7 @@ def sub_pid(i, phase, j):
 def _term(c, o):
     codes = c3.IdCodes(o)
     ns = o.get("ns") or {}
-    dss = vlib.coq_list([str(c3.ds_code(o, d)) for d in c["datasets"] if d in (o.get("dsids") or {})])
+    dss = vlib.coq_list([str(c3.ds_code(o, d)) for d in c["datasets"] + c.get("proxies", []) if d in (o.get("dsids") or {})])
     dead = o.get("outcome") != "ok"
     terms = []
     pids = {}       # probe key (op index, or sub_pid of a probe inside a race op) -> small probe id (a nat in Coq)
@@ -163,21 +163,32 @@ def _term(c, o):
             terms.append(("PWrite (WTxn [(%d, %s)])" if op.get("first_txn") else "PWrite (WBatch %d %s)") % (dsc, ents_term(op["ents"], l1)))
             if bad:
                 terms.append(BAD_WRITE)
-        elif k == "httpq":
-            pass                    # page 1 of a POST /query; reported with the continuation pages at the httpcont op
-        elif k == "httpcont":
-            # the whole paged HTTP query (page 1 before, continuation requests after the writes in between), rows by triples only
-            first = [j for j in range(i) if c["ops"][j]["op"] == "httpq" and c["ops"][j]["id"] == op["id"]]
-            fo = obs_of(first[0]) if first else {"err": "no first page"}
-            if "could not load predicate id" in (fo.get("err") or ""):
-                continue            # refused at the first request (unknown predicate): nothing was paged
-            if bad or fo.get("err") or fo.get("panic"):
-                ob = "(ORel %s)" % BAD_PAGES
-            else:
-                pages = list(fo.get("rpages") or []) + list(oo.get("rpages") or [])
-                ob = "(ORel (Some %s))" % vlib.coq_list([vlib.coq_list(["((%d, %d, %d), %s)" % (
+        elif k in ("httpq", "jsq"):
+            pass                    # page 1 of a POST /query resp. of a transform's PagedQuery; reported with the later pages at the cont op
+        elif k in ("httpcont", "jscont", "httpat"):
+            # the whole paged query: first page before, continuation after the writes in between (httpcont / jscont), or asked over
+            # HTTP with tokens the driver pins to the probe's instant (httpat); rows by triples only
+            def rows(pages):
+                return vlib.coq_list([vlib.coq_list(["((%d, %d, %d), %s)" % (
                     codes.ucode(sc.expand(r["start"], ns)), codes.ucode(sc.expand(r["pred"], ns)), codes.ucode(sc.expand(r["id"], ns)), UNOBSERVED)
                     for r in pg]) for pg in pages])
+            if k == "httpat":
+                if bad and "could not load predicate id" in (oo.get("err") or ""):
+                    ob = "(ORel None)"
+                elif bad:
+                    ob = "(ORel %s)" % BAD_PAGES
+                else:
+                    ob = "(ORel (Some %s))" % rows(oo.get("rpages") or [[]])
+            else:
+                first = [j for j in range(i) if c["ops"][j]["op"] in ("httpq", "jsq") and c["ops"][j]["id"] == op["id"]]
+                fo = obs_of(first[0]) if first else {"err": "no first page"}
+                if "could not load predicate id" in (fo.get("err") or ""):
+                    continue            # refused at the first request (unknown predicate): nothing was paged
+                if bad or fo.get("err") or fo.get("panic"):
+                    ob = "(ORel %s)" % BAD_PAGES
+                else:
+                    pages = list(fo.get("rpages") or []) + list(oo.get("rpages") or [])
+                    ob = "(ORel (Some %s))" % rows(pages or [[]])
             terms.append("PPin %d %s" % (pids.get(op["_twin"], 9999), ob))
         elif k in ("get", "related"):
             probe, ob = probe_terms(op, oo, bad)
@@ -212,11 +223,23 @@ def r(starts, pred="*", inverse=False, datasets=None, limits=(0,), at=None, exac
 
 def pin(op, at, exact, twin, phase=None):
     p = json.loads(json.dumps(op))
+    if exact and not phase and p["op"] == "related" and twin % 2 == 0 and p["limits"][0] >= 1:     # (HTTP reads limit 0 as 100)
+        # every other probe pinned EXACTLY at a commit time is re-asked over HTTP, with continuation tokens carrying that instant
+        p = {"op": "httpat", "starts": p["starts"], "pred": p["pred"], "inverse": p["inverse"], "limit": p["limits"][0]}
+        if op.get("datasets"):
+            p["datasets"] = list(op["datasets"])
     p["at"] = {"after_op": at, "exact": bool(exact)}
     if phase:
         p["at"]["phase"] = phase
     p["_twin"] = twin
     return p
+
+
+def cont_op(kind, sid, twin, lim, n):
+    op = {"op": kind, "id": sid, "limit": lim, "_twin": twin}
+    if kind == "httpcont" and n % 2 == 1:
+        op["resend"] = True         # the client re-sends its original query document with the tokens added
+    return op
 
 
 def with_probes(writes, probes_for, exact_for, http_for=None):
@@ -245,22 +268,25 @@ def with_probes(writes, probes_for, exact_for, http_for=None):
             ops.append(w)
             for (wj, ph, pj, probe) in recorded:
                 ops.append(pin(probe, wj, exact_for(wi, pj), pj, ph))
-        for (sid, twin, lim) in pending:
-            ops.append({"op": "httpcont", "id": sid, "limit": lim, "_twin": twin})
+        for (kind, sid, twin, lim) in pending:
+            ops.append(cont_op(kind, sid, twin, lim, wi))
         pending = []
         for probe in probes_for(wi):
             ops.append(probe)
             recorded.append((widx, None, len(ops) - 1, probe))
-        h = http_for(wi) if http_for else None
-        if h:
-            starts, pred, inv, scope, lim = h
+        for h in (http_for(wi) if http_for else None) or []:
+            kind, starts, pred, inv, scope, lim = h
             twin = r(starts, pred, inv, scope, [lim])          # the same paged query through the store API, all pages now
             ops.append(twin)
             recorded.append((widx, None, len(ops) - 1, twin))
-            ops.extend(c3.hq("h%d" % wi, starts, pred, inv, scope, lim)[:1])
-            pending.append(("h%d" % wi, len(ops) - 2, lim))
-    for (sid, twin, lim) in pending:
-        ops.append({"op": "httpcont", "id": sid, "limit": lim, "_twin": twin})
+            if kind == "http":      # POST /query, first page now, continuation requests after the next write
+                ops.extend(c3.hq("h%d" % wi, starts, pred, inv, scope, lim)[:1])
+                pending.append(("httpcont", "h%d" % wi, len(ops) - 2, lim))
+            else:                   # a transform's PagedQuery, first page now, continued (same parameter object + tokens) after the next write
+                ops.extend(c3.js("j%d" % wi, starts[0], pred, scope, lim)[:1])
+                pending.append(("jscont", "j%d" % wi, len(ops) - 2, lim))
+    for (kind, sid, twin, lim) in pending:
+        ops.append(cont_op(kind, sid, twin, lim, len(writes)))
     return ops
 
 
@@ -282,11 +308,12 @@ def witness_cases():
     w4 = [B("a", E("e1", {"r1": ["e2", "e3"]}), E("e4", {"r1": ["e2", "e3"]})),
           B("a", E("e1", {"r1": "e4"}), E("e4", {}, True)),             # both start entities rewritten between page 1 and the continuations
           B("a", E("e1", {}))]
-    http4 = lambda wi: (["e1", "e4"], "*", False, None, 1) if wi == 0 else ((["e2", "e3"], "r1", True, ["a"], 1) if wi == 1 else None)
-    return [{"datasets": c3.DSN, "ops": with_probes(w4, lambda wi: [], lambda wi, pj: False, http4)},
-            {"datasets": c3.DSN, "ops": with_probes(w3, probes3, lambda wi, pj: False)},
-            {"datasets": c3.DSN, "ops": with_probes(w1, probes, lambda wi, pj: wi % 2 == 0)},
-            {"datasets": c3.DSN, "ops": with_probes(w2, probes2, lambda wi, pj: True)}]
+    http4 = lambda wi: ([("http", ["e1", "e4"], "*", False, None, 1), ("js", ["e1"], "*", False, None, 1)] if wi == 0 else
+                        ([("http", ["e2", "e3"], "r1", True, ["a"], 1), ("js", ["e1"], "r1", False, ["a", "px"], 1)] if wi == 1 else None))
+    return [{"datasets": c3.DSN, "proxies": c3.PROXIES, "ops": with_probes(w4, lambda wi: [], lambda wi, pj: False, http4)},
+            {"datasets": c3.DSN, "proxies": c3.PROXIES, "ops": with_probes(w3, probes3, lambda wi, pj: False)},
+            {"datasets": c3.DSN, "proxies": c3.PROXIES, "ops": with_probes(w1, probes, lambda wi, pj: wi % 2 == 0)},
+            {"datasets": c3.DSN, "proxies": c3.PROXIES, "ops": with_probes(w2, probes2, lambda wi, pj: True)}]
 
 
 def corpus_cases():
@@ -317,8 +344,11 @@ def gen_case(rng, nw, npr):
         if rng.chance(1, 3) and len(posted) >= 2:
             starts = sorted(posted)
             rng.shuffle(starts)
-            https[wi] = (starts[:rng.range(2, 3)], rng.choice(["*"] + c3.PREDS), rng.chance(1, 2), rng.choice(c3.SCOPES), rng.choice([1, 1, 2]))
-    return {"datasets": c3.DSN, "ops": with_probes(writes, lambda wi: probes[wi] if wi < nw - 1 else [], exact_for, lambda wi: https.get(wi))}
+            https[wi] = [("http", starts[:rng.range(2, 3)], rng.choice(["*"] + c3.PREDS), rng.chance(1, 2), rng.choice(c3.SCOPES), rng.choice([1, 1, 2]))]
+        if rng.chance(1, 3) and posted:
+            jp = ["*"] + sorted(set(p for w in writes[:wi + 1] for _, es in c3._sets(w) for e in es if not e.get("deleted") for p in e["refs"]))
+            https.setdefault(wi, []).append(("js", [rng.choice(sorted(posted))], rng.choice(jp), False, rng.choice(c3.SCOPES), rng.choice([1, 1, 2])))
+    return {"datasets": c3.DSN, "proxies": c3.PROXIES, "ops": with_probes(writes, lambda wi: probes[wi] if wi < nw - 1 else [], exact_for, lambda wi: https.get(wi))}
 
 
 def gen(rng, tier):
@@ -379,6 +409,10 @@ def tags(c, o):
         t.append("has-race")
     if any(op["op"] == "httpq" for op in c["ops"]):
         t.append("http-paging-across-writes")
+    if any(op["op"] == "jsq" for op in c["ops"]):
+        t.append("job-pagedquery-continued-across-writes")
+    if any(op["op"] == "httpat" for op in c["ops"]):
+        t.append("http-tokens-at-commit-times")
     if any(op.get("at", {}).get("exact") for op in c["ops"]):
         t.append("exact-instant")
     if any(op["op"] == "related" and op.get("inverse") for op in c["ops"]):
